@@ -156,7 +156,15 @@ def judge(run, sim, reqs, fail_tokens, witness, stats, lossless, refused=()):
             elif nr and nn:
                 nk0 = nack[tok][0]
                 late = nk0["reason"] == 0 and all(e["t"] > nk0["t"] for e in rsp[tok])
-                run.violation("response-and-nack/" + ("response-arrived-after-give-up" if late
+                # "after give-up" is the recorded finding only when the give-up itself was due:
+                # with the default parameters a request is given up 31 x T after its first
+                # transmission, T >= ACK_TIMEOUT = 2 s.  A NACK that comes sooner is another
+                # matter (a send queue that lost time) and gets a signature of its own
+                first_tx = [e["t"] for e in tx_client if tokb in bytes.fromhex(e["b"])]
+                early = late and first_tx and nk0["t"] - min(first_tx) < 61000
+                run.violation("response-and-nack/" + ("gave-up-before-retransmissions-were-due"
+                                                      if early else
+                                                      "response-arrived-after-give-up" if late
                                                       else "other"), w,
                               "token %s: %d responses and %d NACKs (NACK reason %d at %d, "
                               "responses at %r)" % (tok, nr, nn, nk0["reason"], nk0["t"],
